@@ -55,7 +55,7 @@ def main():
                     print("witness of %r does not reproduce (%r / %r): skipped" % (key, got, got2))
                     continue
                 side = other
-            name = (family or "diag") + "-" + slug(re.sub(r"\|via:[a-z-]+$", "", key).replace("diagnosed-not-rejected|", ""))
+            name = ("diag-" if key.startswith("diagnosed-not-rejected|") else "w-") + slug(key.replace("diagnosed-not-rejected|", ""))
             for f, t in files.items():
                 fn = name + ".nano" if f == "main.nano" else "%s__%s" % (name, f)
                 open(os.path.join(FD, fn), "w").write(t)
